@@ -91,6 +91,9 @@ def menu(d):
     M["fs_sub_v1"] = ("fs", "v1")
     M["bad_inc_call"] = ("loads", H + inc("sub.xbb") + "\nint n = 8\nSub(y=1) | [0, 1]\n")
     M["bad_inc_syntax"] = ("loads", H + inc("broken.xbb") + "\nG | 0\n")
+    M["bad_inc_syntax_v"] = ("loads", H + inc("brokenv.xbb") + "\nG | 0\n")        # a broken file that the file-system events rewrite (another broken text)
+    M["bad_load_v"] = ("load", os.path.join(d, "brokenv.xbb"))
+    M["ok_meta_positional"] = ("loads", "name a\nversion 1.0\ntarget g (5, shots=1)\ntype t (2.5, \"x\")\nG | 0\n")      # ignored with a warning, at every load
     M["bad_inc_second"] = ("load", os.path.join(d, "main_second_bad.xbb"))
     M["bad_inc_missing"] = ("loads", H + inc("nonexistent.xbb") + "\nG | 0\n")
     M["probe_n"] = ("loads", H + "target g (shots=n)\nG | 0\n")
@@ -107,15 +110,17 @@ def menu(d):
     return M
 
 
+BROKENV = {"v1": "name Broken\nversion 1.0\n\nint n = 3\nG( | 0\n", "v2": "name Broken\nversion 1.0\n\nfloat longer_name = 3.5\nH(1, | 0\nK | 1\n"}
 SUB = {"v1": "name Sub\nversion 1.0\n\nfloat n = 0.25\nA({x}, n) | 0\nB | [1, 0]\n",
        "v2": "name Sub\nversion 1.0\n\nfloat n = 0.75\nC(n, {x}) | 1\nB | [0, 1]\nD | 0\n"}
-USES_SUB = ("ok_inc", "ok_inc_file", "bad_inc_call", "bad_inc_second", "ok_inc_dup", "ok_inc_nested_dup", "ok_inc_chain")
+USES_SUB = ("ok_inc", "ok_inc_file", "bad_inc_call", "bad_inc_second", "ok_inc_dup", "ok_inc_nested_dup", "ok_inc_chain", "bad_inc_syntax_v", "bad_load_v")
 
 
 def write_files(d):
     os.makedirs(d, exist_ok=True)
     w = lambda f, t: open(os.path.join(d, f), "w").write(t)
     w("sub.xbb", SUB["v1"])
+    w("brokenv.xbb", BROKENV["v1"])
     w("broken.xbb", "name Broken\nversion 1.0\n\nint n = 3\nG( | 0\n")
     w("main_ok.xbb", H + 'include "sub.xbb"\n\nint n = 2\nSub(x=n) | [1, 2]\n')
     for proj, val, modes in (("projA", "0.5", "[1, 0]"), ("projB", "7", "[0, 1]")):
@@ -135,16 +140,21 @@ def outcome(ev, d=None):
     kind, arg = ev
     if kind == "fs":
         return "fs:" + arg, "file system event " + arg, None
-    try:
-        if kind == "load_rel":
-            os.chdir(arg)
-            p = blackbird.load("main.xbb")
-        else:
-            p = blackbird.loads(arg) if kind == "loads" else blackbird.load(arg)
-        c = ("OK", observe.prog_canon(p, exact=True))
-    except Exception as e:  # noqa
-        p = None
-        c = ("EXC", type(e).__name__, str(e.args[0]) if e.args else str(e))
+    import warnings
+    with warnings.catch_warnings(record=True) as caught:
+        warnings.simplefilter("always")        # what a load reports through the warnings machinery is part of its outcome
+        try:
+            if kind == "load_rel":
+                os.chdir(arg)
+                p = blackbird.load("main.xbb")
+            else:
+                p = blackbird.loads(arg) if kind == "loads" else blackbird.load(arg)
+            c = ("OK", observe.prog_canon(p, exact=True))
+        except Exception as e:  # noqa
+            p = None
+            c = ("EXC", type(e).__name__, str(e.args[0]) if e.args else str(e))
+    ws = sorted((w.category.__name__, str(w.message)[:120]) for w in caught if (getattr(w.category, "__module__", "") or "").split(".")[0] in ("builtins", "blackbird") and issubclass(w.category, (SyntaxWarning, UserWarning, DeprecationWarning)) and "blackbird" in (w.filename or ""))
+    c = c + (("warnings", tuple(ws)),)
     r = repr(c)
     if d:
         r = r.replace(d, "<D>")
@@ -173,6 +183,7 @@ def _exec_history(task):
             if M[k][0] == "fs":
                 ver = M[k][1]
                 open(os.path.join(d, "sub.xbb"), "w").write(SUB[ver])
+                open(os.path.join(d, "brokenv.xbb"), "w").write(BROKENV[ver])
             dg, desc, _ = outcome(M[k], d)
             sd, sdesc = state_digest(d)
             out.append((dg, desc.replace(d, "<D>"), (hashlib.sha1((sd + ver).encode()).hexdigest()[:16], sdesc.replace(d, "<D>") + " files=" + ver), ver))
@@ -275,6 +286,7 @@ def pristine_outcome(d0, k, ver):
     try:
         write_files(d)
         open(os.path.join(d, "sub.xbb"), "w").write(SUB[ver])
+        open(os.path.join(d, "brokenv.xbb"), "w").write(BROKENV[ver])
         dg, desc, _ = outcome(menu(d)[k], d)
         return [dg, desc]
     finally:
@@ -363,6 +375,9 @@ def run(ctx):
     alt = [("ok_inc_dup", "ok_inc"), ("ok_inc_nested_dup", "bad_inc_syntax"), ("bad_inc_missing", "ok_inc_file"), ("fs_sub_v2", "ok_inc_dup", "fs_sub_v1", "ok_inc_dup"),
            ("ok_fn_real", "ok_fn_complex", "ok_fn_int"), ("ok_tmpl", "bad_undef_tmpl"), ("ok_tdm", "probe_plain_p0"), ("rel_projA", "rel_projB"), ("bad_syntax", "ok_plain"), ("bad_loop", "ok_loop"), ("ok_inc_chain", "fs_sub_v2", "ok_inc_chain", "fs_sub_v1"), ("bad_long_chain", "ok_deep_brackets", "bad_long_chain")]
     reps += [tuple(a) * (R // len(a)) for a in alt]
+    # every script that reads files: loaded, the files rewritten, loaded again, rewritten back, loaded again (what a
+    # process remembers under a file NAME - in the package or in a library below it - is not what the file holds now)
+    reps += [(k, "fs_sub_v2", k, "fs_sub_v1", k, "fs_sub_v2", k) for k in USES_SUB]
     raw = raw + reps
     raw = common.shard(raw, ctx.seed)
     res = pool.pmap(_hist, [(d, h) for h in raw], chunk=8)
